@@ -80,13 +80,17 @@ func (d *Provider) Block() {
 		return
 	}
 	for key, defaultVal := range d.defaultInstances {
-		if _, ok := d.instances[key]; !ok {
-			if d.autoclean {
-				delete(d.defaultFactories, key)
-				delete(d.factories, key)
-			}
-			d.instances[key] = defaultVal
+		if _, ok := d.instances[key]; ok {
+			continue
 		}
+		if _, ok := d.factories[key]; ok {
+			// an explicit factory wins over a default instance
+			continue
+		}
+		if d.autoclean {
+			delete(d.defaultFactories, key)
+		}
+		d.instances[key] = defaultVal
 	}
 	d.defaultInstances = nil
 	d.blocked = true
